@@ -1,6 +1,7 @@
 """C08 — a committed event was computed from the trajectory that is still current (DESIGN.md section 5, C08)."""
 import common as C
 import hist
+import wiring
 
 TRUSTED = [
     "hand-written model coq/Model/Stale.v (pending in-states per handler on top of Model/Kinematics.v)",
@@ -27,7 +28,7 @@ def run(ctx, replay_jobs=None):
         "survivors undisturbed after every commit); oracle: at every commit of an interaction / cell-veto handler "
         "each unit of the in-state its candidate was computed from has the same velocity and lies on the same line in "
         "the global state (exact rationals)",
-        replay_jobs=replay_jobs, coq_legs=ctx.n(60, 300))
+        replay_jobs=replay_jobs, static_obligations=wiring.static_obligations, coq_legs=ctx.n(60, 300))
 
 
 def replay(ctx, path):
